@@ -925,7 +925,7 @@ pub fn shapes(n: usize) -> Vec<Shape> {
         &mut g.r,
     ));
     out.push(shape_of(vec![el("div", vec![], vec![tx("a"), el("b", vec![], vec![tx("x")]), tx(" b "), tx("c"), Tmpl::Text("two words".into(), true)])], &mut g.r));
-    // 5. the shapes of the finding classes
+    // 5. the shapes of the finding classes (F-C18-1, -3, -4 repaired: regression shapes; F-C18-2 open)
     for s in NOSCRIPT_HOSTILE {
         out.push(shape_of(vec![el("div", vec![], vec![el("noscript", vec![], vec![tx(s)])])], &mut g.r));
     }
